@@ -56,9 +56,11 @@ def gen(tier, rng):
     n = 220 if tier == "quick" else 8000
     for i in range(n):
         big = (i % 25 == 24)
+        # every fifth case draws its headers mostly from the RLP length-form boundaries of the announced size
+        bnd = 0.6 if i % 5 == 3 else 0.0
         if rng.random() < 0.55:
             nb = rng.choice([1, 2, 3, 3, 4, 5] + ([40] if big else []))
-            req, fulls = reqgen.advance_request(rng, nblocks=nb, maxbros=rng.choice([0, 2, 3, 10]), big=big)
+            req, fulls = reqgen.advance_request(rng, nblocks=nb, maxbros=rng.choice([0, 2, 3, 10]), big=big, boundary=bnd)
             if rng.random() < 0.1:
                 # a 17/18-field header in an advance (no coinbase), or a duplicate brother
                 raw, _ = reqgen.rand_header(rng, nfields=rng.choice([17, 18]))
@@ -66,8 +68,8 @@ def gen(tier, rng):
             if rng.random() < 0.1 and req["brothers"][0]:
                 req["brothers"][0].append(req["brothers"][0][0])
         else:
-            req, fulls = reqgen.update_request(rng, nblocks=rng.choice([1, 2, 3, 5] + ([40] if big else [])), big=big)
-        c = linegen.line_case(rng, req, fulls, policy=policy(rng), stream=req["command"])
+            req, fulls = reqgen.update_request(rng, nblocks=rng.choice([1, 2, 3, 5] + ([40] if big else [])), big=big, boundary=bnd)
+        c = linegen.line_case(rng, req, fulls, policy=policy(rng), stream=req["command"] + ("-boundary" if bnd else ""))
         c.op = OP
         out.append(c)
     return out
